@@ -86,9 +86,13 @@ def run(ck):
             ck.violation("%s: two instances built with seed %r produce different samples" % (kind, seed), inp, tag="seed:" + kind)
         # get_sample run = prefix of the stream
         k1 = make_gen(kind, par, seed, False); k2 = make_gen(kind, par, seed, False)
-        run_s = np.array([k1.get_sample() for _ in range(9)]); ref_s = np.asarray(k2.get_series(9))
+        nrun = ck.rng.choice([9, 9, 4100, 8200, 12300])      # runs longer than the generators' internal prefetch buffers too
+        run_s = np.array([k1.get_sample() for _ in range(nrun)]); ref_s = np.asarray(k2.get_series(nrun))
         if not np.array_equal(run_s, ref_s):
-            ck.violation("%s: a run of get_sample() calls is not the prefix of the stream" % kind, inp, tag="sample:" + kind)
+            j = int(np.nonzero(run_s != ref_s)[0][0])
+            ck.violation("%s: a run of %d get_sample() calls is not the prefix of the stream (first difference at sample %d)" % (kind, nrun, j), dict(inp, get_sample_run=nrun), tag="sample:" + kind)
+        # (get_series after get_sample continues beyond the prefetched buffer by design: mixing the two call styles is not
+        #  part of the property, which speaks of sequences of get_series calls and of get_sample runs)
         # --- model: white stream recorded from a twin RNG; cascade/generator evaluated in Coq at binary64
         if kind != "white" and sum(sizes) <= 600:
             total = int(sum(sizes))
